@@ -1,0 +1,4 @@
+//! Verification hooks (cargo feature `verif-hooks`, off by default).
+//!
+//! Thin public wrappers around crate-private items so that an external verification harness can
+//! drive them directly.  Nothing in here changes the behaviour of the crate.
